@@ -23,6 +23,7 @@ CONSTANTS NSc,          \* scenarios are numbered 1..NSc
           ScWire(_),    \* the bytes that arrive in scenario i
           ScKind(_),    \* "req" (a server reads requests) | "resp" (a client reads responses)
           ScMsgs(_),    \* number of messages in scenario i
+          ScHead(_, _), \* the nth message of scenario i answers a HEAD request (responses only)
           MaxPieces,    \* the bytes arrive in at most that many pieces
           MaxK          \* no piece is longer than that (a constant bound lets TLC label Deliver(k) edges)
 
@@ -68,17 +69,23 @@ ChunkExts(line) == LET s == Find(line, ";") IN IF s = 0 THEN {} ELSE ParseExts(R
 
 P0 == [phase |-> "line", buf |-> <<>>, start |-> <<>>, headers |-> {}, body |-> <<>>, parms |-> {}, trails |-> {}, need |-> 0]
 
-\* RFC 7230 3.3.3: chunked wins over Content-Length; neither: a request has no body, a response runs until close
-EndOfHead(q, kind) ==
+\* RFC 7230 3.3.3: a response to HEAD and a 1xx, 204 or 304 response end at the blank line whatever their header
+\* fields say (rule 1); otherwise chunked wins over Content-Length (rule 3); neither: a request has no body, a
+\* response runs until close.  An interim "100 Continue" is not the answer: the parser goes on to the response proper.
+Status(q) == q.start[2]
+EndOfHead(q, kind, hd) ==
     LET te == {h \in q.headers : h[1] = LowerS(TransferEncoding)}
         cl == {h \in q.headers : h[1] = LowerS(ContentLength)} IN
-    IF \E h \in te : LowerS(h[2]) = Chunked THEN [q EXCEPT !.phase = "chunk-size"]
+    IF kind = "resp" /\ Status(q) = <<"1", "0", "0">> THEN [P0 EXCEPT !.buf = q.buf]
+    ELSE IF kind = "resp" /\ (hd \/ Status(q) \in {<<"2", "0", "4">>, <<"3", "0", "4">>} \/ Status(q)[1] = "1")
+         THEN [q EXCEPT !.phase = "done"]
+    ELSE IF \E h \in te : LowerS(h[2]) = Chunked THEN [q EXCEPT !.phase = "chunk-size"]
     ELSE IF cl # {} THEN [q EXCEPT !.phase = "body", !.need = NumVal((CHOOSE h \in cl : TRUE)[2], 10, 0)]
     ELSE IF kind = "req" THEN [q EXCEPT !.phase = "done"]
     ELSE [q EXCEPT !.phase = "close"]
 
 \* one step of the parser; returns q itself when it cannot go on with the bytes it has
-Step1(q, kind, cl) ==
+Step1(q, kind, cl, hd) ==
     LET i == FindCRLF(q.buf)
         line == SubSeq(q.buf, 1, i - 1)
         after == Rest(q.buf, i + 2) IN
@@ -86,7 +93,7 @@ Step1(q, kind, cl) ==
             IF i = 0 THEN q ELSE [q EXCEPT !.phase = "headers", !.start = ParseStart(line), !.buf = after]
       [] q.phase = "headers" ->
             IF i = 0 THEN q
-            ELSE IF line = <<>> THEN EndOfHead([q EXCEPT !.buf = after], kind)
+            ELSE IF line = <<>> THEN EndOfHead([q EXCEPT !.buf = after], kind, hd)
             ELSE [q EXCEPT !.headers = @ \cup {ParseField(line)}, !.buf = after]
       [] q.phase = "body" ->
             IF Len(q.buf) < q.need THEN q
@@ -110,8 +117,8 @@ Step1(q, kind, cl) ==
       [] q.phase = "done" -> q
 
 \* go on as far as possible
-RECURSIVE Run(_, _, _)
-Run(q, kind, cl) == LET r == Step1(q, kind, cl) IN IF r = q THEN q ELSE Run(r, kind, cl)
+RECURSIVE Run(_, _, _, _)
+Run(q, kind, cl, hd) == LET r == Step1(q, kind, cl, hd) IN IF r = q THEN q ELSE Run(r, kind, cl, hd)
 
 Result(q) == [start |-> q.start, headers |-> q.headers, body |-> q.body, parms |-> q.parms, trails |-> q.trails]
 \* an observer sees whether the message is complete and, if so, its content and the unconsumed bytes
@@ -135,7 +142,7 @@ Deliver(k) == /\ ~fresh /\ pieces < MaxPieces
 
 \* the parser is asked to go on
 Parse == /\ fresh
-         /\ p' = Run(p, ScKind(sc), closed)
+         /\ p' = Run(p, ScKind(sc), closed, ScHead(sc, nth))
          /\ obs' = Obs(p')
          /\ fresh' = FALSE
          /\ UNCHANGED <<sc, sent, pieces, closed, nth>>
@@ -163,11 +170,11 @@ Spec == Init /\ [][Next]_vars
 
 (* ---- properties ---- *)
 \* parsing everything that has arrived in one go (restarting after each complete message)
-RECURSIVE Whole(_, _, _, _)
-Whole(q, kind, cl, n) == LET r == Run(q, kind, cl) IN
-                         IF n = 0 THEN r ELSE Whole([P0 EXCEPT !.buf = r.buf], kind, cl, n - 1)
+RECURSIVE Whole(_, _, _, _, _)
+Whole(q, kind, cl, n, k) == LET r == Run(q, kind, cl, ScHead(sc, k)) IN
+                            IF k = n THEN r ELSE Whole([P0 EXCEPT !.buf = r.buf], kind, cl, n, k + 1)
 \* the parser's state depends on what has arrived, not on how it was split
-SplitIndependent == ~fresh => p = Whole([P0 EXCEPT !.buf = SubSeq(W, 1, sent)], ScKind(sc), closed, nth - 1)
+SplitIndependent == ~fresh => p = Whole([P0 EXCEPT !.buf = SubSeq(W, 1, sent)], ScKind(sc), closed, nth, 1)
 ObsIsFunctionOfParser == obs = Obs(p)
 \* nothing is lost: consumed + reported + unconsumed bytes account for everything delivered
 BufferIsSuffix == Len(p.buf) <= sent /\ p.buf = SubSeq(W, sent - Len(p.buf) + 1, sent)
